@@ -1,4 +1,9 @@
 \* C19 thorough: as quick with paths of length <= 4, every case on 2 further seeded draws.
+\* + mode from_value (hand-built properties: Value::from of primitives / &String / &Cow / Option / &[T; N], to_value of
+\* dyn Display / dyn Debug / dyn Error / [T; N]); typed read paths as_f64, to_borrowed_str, cast::<&str>, cast::<String>,
+\* cast::<&dyn Error> where the call site promises the typed component.
+\* + every Display / Debug observation under the plain formatter and 8 formatter flag families (alternate, width, fill,
+\* precision, width+precision, sign, zero-pad, hex-debug), incl. flagged template holes.
 SPECIFICATION Spec
 CONSTANTS
     MaxSteps = 4
